@@ -348,6 +348,10 @@ where
         let (encryptor, decryptor) = create_ciphers(shared_secret)?;
         self.stream.set_encryption(Some(encryptor), Some(decryptor));
 
+        // whatever was received ahead of this point is still in the read buffer as it came off the
+        // wire, but it was sent by the client after it had enabled its own encryption
+        self.stream.decrypt_buffered(&mut self.read_buffer);
+
         Ok(())
     }
 
